@@ -48,7 +48,7 @@ theorem C11_refine_step (c : Cfg) (s s' : St) (op : Op) (r : Res)
   unfold Durable view at *
   simp only [View.mk.injEq] at hd
   obtain ⟨ha, hi, hh, hs, hf⟩ := hd
-  cases op <;> simp only [step, allowlistOp, keysend, newChannel, forgetChannel, restart, heartbeat, addBlocks, removeBlock,
+  cases op <;> simp only [step, allowlistOp, keysend, newChannel, forgetChannel, signInvoice, restart, heartbeat, addBlocks, removeBlock,
     Core.updateNode, Core.updateAllowlist] at h
   all_goals (repeat' split at h)
   all_goals first
@@ -85,6 +85,14 @@ theorem C11_restart_equiv (c : Cfg) (ops : List Op) (s sf : St) (rs : List Res)
     view (restart sf).1.mem = view sf.mem := by
   have := C11_refine_run c ops s sf rs hd h
   simpa [restart, Durable] using this
+
+/-- Issued invoices are not one of the fields the property lists, and `sign_bolt11_invoice` does not persist:
+    right after it the store does NOT determine them (first conjunct: a concrete history) — they become durable
+    with the next request that rewrites the node entry (second conjunct, for every state). -/
+theorem C11_issued_not_durable_until_update_node :
+    (∃ s', step C10.cfg0 C10.s0 (.sinv 7 1000) = some (s', .ok) ∧ s'.mem.issued = [(7, 1000)] ∧ s'.disk.issued = []) ∧
+    (∀ d m : Core, (d.updateNode m).issued = m.issued) :=
+  ⟨⟨_, rfl, rfl, rfl⟩, fun _ _ => rfl⟩
 
 /-- The refinement really depends on the persist calls: the model of `forget_channel` *before* fix
     2cdac39 (tracker entry not rewritten) breaks it — the recorded defect F12. -/
@@ -387,16 +395,17 @@ theorem C11_gen_census_tracker :
 `Model/NodeReq.lean` abstracts `update_node` as `Core.updateNode` and `update_node_allowlist` as
 `Core.updateAllowlist`.  Which of the model's fields each of them copies is pinned to the census. -/
 
-inductive CoreF | allow | invoices | vc | hwm | stubs | forgetFlag
+inductive CoreF | allow | invoices | issued | vc | hwm | stubs | forgetFlag
   deriving DecidableEq, Repr
 
-def CoreF.all : List CoreF := [.allow, .invoices, .vc, .hwm, .stubs, .forgetFlag]
+def CoreF.all : List CoreF := [.allow, .invoices, .issued, .vc, .hwm, .stubs, .forgetFlag]
 
 /-- the `NodeState` field a field of the model's `Core` stands for (`none`: the channel entries / the tracker
     entry, written by `new_channel` / `delete_channel` / `update_tracker`) -/
 def coreField : CoreF → Option NodeStateF
   | .allow => some .allowlist
   | .invoices => some .invoices
+  | .issued => some .issued_invoices
   | .vc => some .velocity_control
   | .hwm => some .dbid_high_water_mark
   | .stubs => none
@@ -404,22 +413,24 @@ def coreField : CoreF → Option NodeStateF
 
 /-- what the model's two node-level persist calls do, field by field -/
 theorem updateNode_spec (d m : Core) :
-    (d.updateNode m).invoices = m.invoices ∧ (d.updateNode m).vc = m.vc ∧ (d.updateNode m).hwm = m.hwm ∧
+    (d.updateNode m).invoices = m.invoices ∧ (d.updateNode m).issued = m.issued ∧ (d.updateNode m).vc = m.vc ∧
+    (d.updateNode m).hwm = m.hwm ∧
     (d.updateNode m).allow = d.allow ∧ (d.updateNode m).stubs = d.stubs ∧ (d.updateNode m).forgetFlag = d.forgetFlag :=
-  ⟨rfl, rfl, rfl, rfl, rfl, rfl⟩
+  ⟨rfl, rfl, rfl, rfl, rfl, rfl, rfl⟩
 
 theorem updateAllowlist_spec (d m : Core) :
     (d.updateAllowlist m).allow = m.allow ∧ (d.updateAllowlist m).invoices = d.invoices ∧ (d.updateAllowlist m).vc = d.vc ∧
-    (d.updateAllowlist m).hwm = d.hwm ∧ (d.updateAllowlist m).stubs = d.stubs ∧ (d.updateAllowlist m).forgetFlag = d.forgetFlag :=
-  ⟨rfl, rfl, rfl, rfl, rfl, rfl⟩
+    (d.updateAllowlist m).hwm = d.hwm ∧ (d.updateAllowlist m).stubs = d.stubs ∧ (d.updateAllowlist m).forgetFlag = d.forgetFlag ∧
+    (d.updateAllowlist m).issued = d.issued :=
+  ⟨rfl, rfl, rfl, rfl, rfl, rfl, rfl⟩
 
 /-- **C11_gen_model_update_node** (generated obligation): the model fields copied by `Core.updateNode`
-    (`updateNode_spec`: invoices, vc, hwm) are exactly the modelled fields that the source's `NodeStateEntry`
+    (`updateNode_spec`: invoices, issued invoices, vc, hwm) are exactly the modelled fields that the source's `NodeStateEntry`
     is computed from, and `Core.updateAllowlist` copies exactly the one kept in the allowlist entry. -/
 theorem C11_gen_model_update_node :
     CoreF.all.filter (fun x => match coreField x with
       | some f => NodeEntryF.all.any (fun e => e != .allowlist_item && (nodeSave e).contains f)
-      | none => false) = [.invoices, .vc, .hwm] ∧
+      | none => false) = [.invoices, .issued, .vc, .hwm] ∧
     CoreF.all.filter (fun x => match coreField x with
       | some f => (nodeSave .allowlist_item).contains f
       | none => false) = [.allow] := by decide
